@@ -146,6 +146,40 @@ Proof. intros H Hn. unfold after_conf_change. rewrite H. destruct (N.eqb_spec c 
 Theorem after_saved_id_frees s c : ps_saved s = Some c -> ps_saved (after_conf_change s c) = None.
 Proof. intros H. unfold after_conf_change. rewrite H, N.eqb_refl. reflexivity. Qed.
 
+(** a time-out of the requester does not free the slot: the next request is still refused *)
+Theorem timeout_keeps_pending s c x : ps_saved s = Some c -> submit (reply_timeout s) x = (s, PPending).
+Proof. intros H. unfold reply_timeout. now apply submit_while_pending_refused with c. Qed.
+(** at most one membership change is in flight, over any sequence of requests, completions,
+    takes by the raft loop and requester time-outs: the changes in flight are exactly the saved
+    one.  (With one change in flight the availability check of the next accepted request runs
+    against a configuration that already contains every earlier change:
+    [remove_healthy_keeps_quorum] then applies to each accepted removal.) *)
+Definition slot_inv (st : pslot * list N) : Prop :=
+  snd st = match ps_saved (fst st) with Some c => [c] | None => [] end.
+Lemma pstep_inv st o : slot_inv st -> slot_inv (pstep st o).
+Proof.
+  destruct st as [s fl]. unfold slot_inv. cbn [fst snd]. intros H. destruct o as [x|x|x| |]; cbn [pstep fst snd]; auto.
+  - unfold submit. destruct (ps_saved s) eqn:E; cbn [fst snd]; [now rewrite E|].
+    destruct (Nat.ltb _ _); cbn; subst fl; reflexivity.
+  - unfold after_conf_change. destruct (ps_saved s) eqn:E; subst fl; cbn.
+    + destruct (N.eqb_spec n x); cbn; [reflexivity|now rewrite E].
+    + now rewrite E.
+  - destruct (ps_chan s); cbn; auto.
+Qed.
+Theorem one_change_in_flight ops cap :
+  let st := fold_left pstep ops (mk_ps None [] cap, []) in
+  (length (snd st) <= 1)%nat /\
+  forall c x, In c (snd st) -> submit (fst st) x = (fst st, PPending).
+Proof.
+  cbn zeta. assert (H : slot_inv (fold_left pstep ops (mk_ps None [] cap, []))).
+  { generalize (mk_ps None [] cap, @nil N) (eq_refl : slot_inv (mk_ps None [] cap, [])).
+    induction ops as [|o tl IH]; intros st Hs; cbn; auto. apply IH. now apply pstep_inv. }
+  unfold slot_inv in H. destruct (fold_left pstep ops (mk_ps None [] cap, [])) as [s fl]. cbn [fst snd] in *.
+  destruct (ps_saved s) eqn:E; subst fl; cbn.
+  - split; [lia|]. intros c x _. now apply submit_while_pending_refused with n.
+  - split; [lia|]. intros c x [].
+Qed.
+
 (** ---- Cluster.Recover ---- *)
 Lemma is_exist_in ms id : is_exist ms id = true <-> In id (map m_id ms).
 Proof.
